@@ -84,9 +84,16 @@ def write_conf(cfg, mtime=900000):
   settings.update(cfg.get('settings', {}))
   settings.pop('deep_backlog', None)        # generator-internal marker, not a carbon setting
   section = SECTION[cfg['daemon']]
+  decoys = cfg.get('instance_decoys') or {}
   lines = ['[%s]' % section]
   for k in sorted(settings):
-    lines.append('%s = %s' % (k, fmt_setting(settings[k])))
+    lines.append('%s = %s' % (k, fmt_setting(decoys.get(k, settings[k]))))
+  if decoys:
+    # the daemon runs as instance "a" (the default): its section overrides the program's
+    lines.append('')
+    lines.append('[%s:a]' % section)
+    for k in sorted(decoys):
+      lines.append('%s = %s' % (k, fmt_setting(settings[k])))
   files = dict(DEFAULT_FILES)
   files.update(cfg.get('files', {}))
   files['carbon.conf'] = '\n'.join(lines) + '\n'
@@ -195,6 +202,11 @@ def boot(cfg, use_threads=False, ctx=None):
   if use_threads:
     w.threading_shim = simsched.ThreadingShim(w.sched)
     ccache.threading = w.threading_shim
+    if hasattr(instrumentation, 'stats_lock'):
+      # a real lock held by a parked simulated thread would block the thread that holds
+      # the baton for good: the counters' lock becomes a SimLock as well
+      instrumentation.threading = w.threading_shim
+      instrumentation.stats_lock = w.threading_shim.Lock()
 
   from carbon import service
   w.service_mod = service
@@ -245,11 +257,15 @@ class _Timer(object):
 
 
 class _PlainTime(object):
+  """time module seam of the thread-less worlds.  time() is the wall clock: the reactor's
+  (monotonic) clock plus an offset that a run may step forwards or backwards."""
+
   def __init__(self, clock):
     self._c = clock
+    self.offset = 0.0
 
   def time(self):
-    return self._c.now
+    return self._c.now + self.offset
 
   def sleep(self, d):
     if d < 0:
